@@ -157,7 +157,7 @@ func TestC02(t *testing.T) {
 
 func TestC05(t *testing.T) {
 	c := evid.New("C05")
-	c.Rule = "histories of all write kinds, 1-3 rounds of 1-3 concurrent requests, generated choice lists (id allocation / chaining / hand-off / InsertLogs gates), batch sizes {production,1,2,3}, up to 2 crash+restart points and a failing InsertLogs (the runner dies, the process restarts), dry runs and keyed replays in between. Oracle: ids 0..n-1 in insertion order, hash recomputed from stored content and from the read-back form, hash depends on previous hash, transaction ids 0,1,2.. in log order. Non-trivial = >=2 overlapping writers or a crash followed by a later write; distinct by operations + gate trace."
+	c.Rule = "histories of all write kinds, 1-3 rounds of 1-3 concurrent requests, generated choice lists (id allocation / chaining / hand-off / InsertLogs gates), batch sizes {production,1,2,3}, up to 2 crash+restart points and a failing InsertLogs (the runner dies, the process restarts), dry runs and keyed replays in between. One case in 16 runs two ledgers of one bucket through the real SQL store for InsertLogs and the chain head (GetLastLog), with restarts: each ledger's log is a chain of its own. Oracle: ids 0..n-1 in insertion order, hash recomputed from stored content and from the read-back form, hash depends on previous hash, transaction ids 0,1,2.. in log order. Non-trivial = >=2 overlapping writers or a crash followed by a later write; distinct by operations + gate trace."
 	c.Assumptions = []string{engineAssumption}
 	cfg := enginesim.DefaultConfig()
 	cfg.Crashes = 2
@@ -171,6 +171,11 @@ func TestC05(t *testing.T) {
 	cfg.DryRunPct = 10
 	cfg.MetaFirstPct = 25
 	runProp(t, c, func(rt *rapid.T) {
+		if rapid.IntRange(0, 15).Draw(rt, "sharedBucket") == 0 {
+			// two ledgers of one bucket (they share the table the chain head is read from), restarts in between
+			sharedBucket(rt, c, "C05")
+			return
+		}
 		plan := enginesim.GenPlan(rt, cfg)
 		r := runEngine(t, rt, c, plan)
 		if r == nil {
@@ -238,6 +243,10 @@ func TestC07(t *testing.T) {
 		}
 		if rapid.IntRange(0, 15).Draw(rt, "sharedBucket") == 0 {
 			sharedBucket(rt, c, "C07")
+			return
+		}
+		if rapid.IntRange(0, 19).Draw(rt, "lookupFault") == 0 {
+			lookupFault(rt, c, "C07")
 			return
 		}
 		plan := enginesim.GenPlan(rt, cfg)
@@ -354,7 +363,7 @@ func TestC10(t *testing.T) {
 
 func TestC11(t *testing.T) {
 	c := evid.New("C11")
-	c.Rule = "histories in which 2-4 creates share a reference (pool of 2 + none), some of them previews, with reverts of earlier transactions in between (a reverted transaction keeps its reference): racing (choice lists over exec.ref.taken, the store lookup, the competitor's hand-off, InsertLogs commit and ack), competitor succeeding or failing (insufficient funds, compile error, metadata clash, store fault), later sequential attempts, restart in between. One case in 12 is parallel: 10-40 rounds of 2-8 real goroutines released together with creates on one reference against one real Commander (the reservation has no blocking point a scheduler could own). Oracle: <=1 committed transaction per reference; refusals are CONFLICT when the reference was committed before the attempt started; no spurious CONFLICT. Non-trivial = >=2 same-reference requests overlapping; distinct by operations + gate trace."
+	c.Rule = "histories in which 2-4 creates share a reference (pool of 2 + none), some of them previews, with reverts of earlier transactions in between (a reverted transaction keeps its reference): racing (choice lists over exec.ref.taken, the store lookup, the competitor's hand-off, InsertLogs commit and ack), competitor succeeding or failing (insufficient funds, compile error, metadata clash, store fault), later sequential attempts, restart in between. One case in 12 is parallel: 10-40 rounds of 2-8 real goroutines released together with creates on one reference against one real Commander (the reservation has no blocking point a scheduler could own). One case in 20 lets a committed reference come again while the database fails the look-up with a generated SQLSTATE (through the real ledgerstore.Store and its classification of driver errors): a look-up that did not finish is not an answer. Oracle: <=1 committed transaction per reference; refusals are CONFLICT when the reference was committed before the attempt started; no spurious CONFLICT. Non-trivial = >=2 same-reference requests overlapping; distinct by operations + gate trace."
 	c.Assumptions = []string{engineAssumption}
 	cfg := enginesim.DefaultConfig()
 	cfg.Kinds = []enginesim.OpKind{enginesim.OpCreate, enginesim.OpCreate, enginesim.OpCreate, enginesim.OpCreate, enginesim.OpSaveMeta, enginesim.OpRevert, enginesim.OpRevert}
@@ -375,6 +384,10 @@ func TestC11(t *testing.T) {
 	runProp(t, c, func(rt *rapid.T) {
 		if rapid.IntRange(0, 11).Draw(rt, "parallelFamily") == 0 {
 			parallelClaims(rt, c, "C11", parReference)
+			return
+		}
+		if rapid.IntRange(0, 19).Draw(rt, "lookupFault") == 0 {
+			lookupFault(rt, c, "C11")
 			return
 		}
 		plan := enginesim.GenPlan(rt, cfg)
